@@ -2355,6 +2355,9 @@ class Slur(TimedObject):
             if self.start:
                 #  remove the slur from the current start time
                 self.start.remove_starting_object(self)
+            if note.start:
+                # add it to the start time of the new start note
+                note.start.add_starting_object(self)
             note.slur_starts.append(self)
         self._start_note = note
 
